@@ -8,7 +8,7 @@ opts (all optional):
   presim: number of earlier simulate() calls on the same object before the observed one;
   resume_from: k -> simulate(max_time=k) first, the observed run resumes it (state/log initialisation off, or restart_flags=(state, log));
   build_from + edit: objects built from spec `build_from`, run `presim` times, then edited in place (mc/edits.py) into `spec`;
-  post_insert: list -> insert_absence_time_list(list) after the run; reload: write/read JSON after the run and look at the loaded project;
+  post_insert: list -> insert_absence_time_list(list) after the run; post_remove: remove_absence_time_list() after the run; reload: write/read JSON after the run and look at the loaded project;
   unit_time: passed to simulate(); backward: observe backward_simulate() instead (options due, rev).
 """
 import traceback
@@ -29,7 +29,7 @@ class InjectedInterrupt(BaseException):
 
 class Exec(object):
     __slots__ = (
-        "spec", "opts", "m", "trace", "canon", "error", "error_tb", "placements", "steps", "absent_steps",
+        "spec", "opts", "m", "trace", "canon", "error", "error_tb", "placements", "steps", "absent_steps", "lib_working",
         "defaults_after",
     )
 
@@ -44,6 +44,7 @@ class Exec(object):
         self.placements = {}  # (step, "update"|"alloc") -> placement events of that part of the step
         self.steps = 0
         self.absent_steps = set()
+        self.lib_working = {}  # step -> the library's own working/absence flag (the trace carries the flag derived from the list given to simulate())
 
     @property
     def project(self):
@@ -83,8 +84,14 @@ def make_observer(ex, phases=ALL_PHASES, want_canon=False, fault=None, extra=Non
     fault = tuple(fault) if fault else None
     fault_type = fault_type or InjectedFault
 
+    absn = set((ex.opts or {}).get("absence") or ())
+
     def obs(project, phase, working):
         t = project.time
+        if working is not None:
+            ex.lib_working[t] = working
+        # oracle side: whether step t is a project-wide absence step is decided by the list given to simulate(), not by the library
+        lib_flag, working = working, t not in absn
         if phase == "updated":
             ex.placements.setdefault((t, "update"), []).extend(S.PLACEMENT_LOG)
             del S.PLACEMENT_LOG[:]
@@ -93,14 +100,14 @@ def make_observer(ex, phases=ALL_PHASES, want_canon=False, fault=None, extra=Non
         elif phase == "allocated":
             ex.placements.setdefault((t, "alloc"), []).extend(S.PLACEMENT_LOG)
             del S.PLACEMENT_LOG[:]
-            if working is False:
+            if lib_flag is False:
                 ex.absent_steps.add(t)
         elif phase == "recorded":
             ex.steps = max(ex.steps, t + 1)
         if phase in phases:
             ex.trace.append((t, phase, working, S.snap(project)))
         if extra is not None:
-            extra(project, phase, working)
+            extra(project, phase, lib_flag)  # harness-side observers (log-vs-live comparison) follow the run as the library performs it
         if fault is not None and fault == (t, phase):
             raise fault_type("injected at step %d phase %s" % (t, phase))
 
@@ -163,8 +170,10 @@ def run(spec, opts=None, model=None, call=None):
     finally:
         bootstrap.clear_observer()
         del S.PLACEMENT_LOG[:]
-    if ex.error is None and (opts.get("post_insert") or opts.get("reload")):
+    if ex.error is None and (opts.get("post_insert") or opts.get("reload") or opts.get("post_remove")):
         try:
+            if opts.get("post_remove"):
+                ex.m.project.remove_absence_time_list()
             if opts.get("post_insert"):
                 ex.m.project.insert_absence_time_list(list(opts["post_insert"]))
             if opts.get("reload"):
